@@ -6,6 +6,7 @@ import (
 	"io"
 	"os"
 	"regexp"
+	"runtime"
 	"sort"
 	"strconv"
 	"strings"
@@ -306,7 +307,7 @@ func (c13Engine) Gen(r *core.Rand, tier string, i int) any {
 	if r.Chance(1, 2) {
 		sc.End = c13GenOps(r, 0, kids, false)
 	}
-	sc.Output = core.Pick(r, []string{"bare", "bufio", "bufio", "flush"})
+	sc.Output = core.Pick(r, []string{"bare", "bufio", "bufio-real", "flush"})
 	sc.BufSize = core.Pick(r, []int{16, 64, 4096, 65536})
 	sc.CRLF = r.Chance(1, 8)
 	if r.Chance(1, 3) {
@@ -329,6 +330,11 @@ func (c13Engine) Gen(r *core.Rand, tier string, i int) any {
 	}
 	if r.Chance(1, 20) {
 		sc.Cmds["K1"] = "exit:5" // exits before reading its input
+		if kids != "none" && !sc.Sched {
+			// make the EPIPE certain: the command is gone (a system() call later) when close()
+			// flushes to it; close() must still reap it and report its exit status
+			sc.Begin = append([]c13Op{{Kind: "print", Dest: "K1", Redir: "|"}, {Kind: "system", Name: "S1"}, {Kind: "close", Name: "K1"}}, sc.Begin...)
+		}
 	}
 	switch f := r.Intn(20); {
 	case f < 4 && kids == "none":
@@ -692,6 +698,7 @@ type c13Result struct {
 	FlushErrs       int // errors returned to the interpreter by Output.Flush
 	Overlaps        int
 	ChildWriteFails int
+	FailedAtTrace   int // bufio-real: number of started operations when the sink first failed (-1: never)
 	SchedOverlaps   []string
 	Async           bool
 	Deadlock        string
@@ -727,6 +734,7 @@ func c13Exec(sc *c13Scn, src string, ops map[int]*c13Op, failAt int, log *core.L
 	sink := core.NewSimSink("stdout", nil)
 	sink.FailAt = failAt
 	stderr := core.NewSimSink("stderr", nil)
+	res.FailedAtTrace = -1
 	var out io.Writer = sink
 	var wrap *outWrap
 	var fsink *core.FlushSink
@@ -738,6 +746,40 @@ func c13Exec(sc *c13Scn, src string, ops map[int]*c13Op, failAt int, log *core.L
 		}
 		wrap = &outWrap{bw: bufio.NewWriterSize(sink, size)}
 		out = wrap
+	case "bufio-real":
+		// exactly what the goawk CLI passes: a *bufio.Writer (some code paths type-assert it).
+		// Errors cannot be counted here; instead the operation during which the sink first
+		// failed is recorded: bufio's error is sticky, so every later write to standard output
+		// must have returned it to the interpreter.
+		size := sc.BufSize
+		if size < 16 {
+			size = 16
+		}
+		out = bufio.NewWriterSize(sink, size)
+		sink.OnFail = func() {
+			res.FailedAtTrace = len(st.trace)
+			// who is flushing? bufio's Write/WriteString overflowing inside a print returns the
+			// error to the interpreter; a Flush called by closeAll/fflush/flushOutputAndError or by
+			// the os/exec copier does not
+			pcs := make([]uintptr, 40)
+			frames := runtime.CallersFrames(pcs[:runtime.Callers(2, pcs)])
+			viaWrite, viaExec := false, false
+			for {
+				fr, more := frames.Next()
+				if strings.HasSuffix(fr.Function, "bufio.(*Writer).WriteString") || strings.HasSuffix(fr.Function, "bufio.(*Writer).Write") {
+					viaWrite = true
+				}
+				if strings.Contains(fr.Function, "os/exec.") {
+					viaExec = true
+				}
+				if !more {
+					break
+				}
+			}
+			if viaWrite && !viaExec {
+				res.WriteErrs++
+			}
+		}
 	case "flush":
 		fsink = &core.FlushSink{Sink: sink, FlushFail: sc.FlushFail}
 		out = fsink
@@ -799,6 +841,16 @@ func c13Exec(sc *c13Scn, src string, ops map[int]*c13Op, failAt int, log *core.L
 	}
 	if fsink != nil {
 		res.FlushErrs = fsink.FlushErrs
+	}
+	if sc.Output == "bufio-real" && res.FailedAtTrace >= 0 {
+		// a print to standard output that started after the failing flush got the sticky error
+		for i := res.FailedAtTrace; i < len(st.trace); i++ {
+			op := ops[st.trace[i].ID]
+			if (op.Kind == "print" || op.Kind == "printf") && (op.Redir == "" || op.Dest == "-" || op.Dest == "/dev/stdout") {
+				res.WriteErrs++
+			}
+		}
+		res.FlushErrs = 1
 	}
 	if sc.Output == "bare" {
 		// failed writes of the program itself (letters); a failed delivery of a child's output
@@ -975,6 +1027,13 @@ func c13Check(sc *c13Scn, src string, ops map[int]*c13Op, failAt int, res *c13Re
 	if res.Deadlock != "" {
 		return fail("deadlock", res.Deadlock)
 	}
+	// os/exec gives the copier of a child's output 250 ms (Cmd.WaitDelay) after the child's exit;
+	// on a starved machine that can expire. The interpreter then reports the loss (message on
+	// the error stream, -1 from system()/close()): not silent, and not decidable here.
+	if strings.Contains(res.Stderr, "WaitDelay expired") {
+		out.Probe("inconclusive:exec_waitdelay_expired_under_load", 1)
+		return nil
+	}
 	// model, driven by the observed trace
 	runModel := func(lastComplete bool) *c13Model {
 		m := &c13Model{sc: sc, files: map[string]string{}, open: map[string]string{}, spans: map[string]string{}, curInst: map[string]string{}, vals: map[int]float64{}, lines: map[int]string{},
@@ -1028,6 +1087,16 @@ func c13Check(sc *c13Scn, src string, ops map[int]*c13Op, failAt int, res *c13Re
 	if res.Res.Err == nil && !m.runErr && res.Res.Status != m.status {
 		return fail("exit-status", fmt.Sprintf("exit status %d, expected %d", res.Res.Status, m.status))
 	}
+	epipeProne := false
+	for _, n := range res.Started {
+		base := n
+		if i := strings.Index(n, "#"); i >= 0 {
+			base = n[:i]
+		}
+		if (strings.HasPrefix(base, "K") || strings.HasPrefix(base, "T")) && !strings.Contains(sc.Cmds[base], "slurp") {
+			epipeProne = true
+		}
+	}
 	// return values of close / fflush / system / getline
 	for i, e := range res.Trace {
 		want, ok := m.vals[i]
@@ -1038,14 +1107,11 @@ func c13Check(sc *c13Scn, src string, ops map[int]*c13Op, failAt int, res *c13Re
 		if sc.DevFull != "" && (op.Name == sc.DevFull) {
 			continue
 		}
-		if (sinkFailed || sc.DevFull != "") && (op.Kind == "fflushall" || op.Kind == "fflush") {
-			continue
+		if (sinkFailed || sc.DevFull != "" || epipeProne) && (op.Kind == "fflushall" || op.Kind == "fflush") {
+			continue // whether a flush to a command that never reads fails depends on when it exits
 		}
 		if sinkFailed && op.Kind == "system" {
 			continue // the child's output could not be delivered: status is -1 or a SIGPIPE death
-		}
-		if op.Kind == "close" && m.sc.Cmds[op.Name] != "" && strings.HasPrefix(m.sc.Cmds[op.Name], "exit:") {
-			continue // a command that exits before reading its input: EPIPE on flush, status still reported
 		}
 		if e.Val != want {
 			return fail("return-value", fmt.Sprintf("operation %d (%s %s) returned %v, expected %v", e.ID, op.Kind, op.Name, e.Val, want))
@@ -1077,6 +1143,13 @@ func c13Check(sc *c13Scn, src string, ops map[int]*c13Op, failAt int, res *c13Re
 		}
 	}
 	// rule 3: standard output
+	racy := talkersStarted(res) && !sc.Sched && sc.Output != "bare" // F-C13-1 territory: free-running child + buffered writer
+	classify := func(f *core.Failure) *core.Failure {
+		if f != nil && racy && core.IsOpen("F-C13-1") {
+			f.Known = "F-C13-1" // the unsynchronised writer shared with the child's copier may be corrupted
+		}
+		return f
+	}
 	wantOut := m.stdout.String()
 	if failAt >= 0 && failAt < len(wantOut) {
 		wantOut = wantOut[:failAt]
@@ -1099,7 +1172,7 @@ func c13Check(sc *c13Scn, src string, ops map[int]*c13Op, failAt int, res *c13Re
 			return fail("stdout-content", fmt.Sprintf("standard output delivered %q, expected %q", clip(res.Stdout, 300), clip(wantOut, 300)))
 		}
 	} else if f := c13CheckTalkers(sc, m, res, failAt, fail); f != nil {
-		return f
+		return classify(f)
 	}
 	// 'e' tokens on standard error (mixed with the interpreter's own messages): in order, exactly once
 	gotE := strings.Join(c13ErrTok.FindAllString(res.Stderr, -1), "")
@@ -1157,6 +1230,15 @@ func c13Check(sc *c13Scn, src string, ops map[int]*c13Op, failAt int, res *c13Re
 		return f
 	}
 	return nil
+}
+
+func talkersStarted(res *c13Result) bool {
+	for _, n := range res.Started {
+		if strings.HasPrefix(n, "T") {
+			return true
+		}
+	}
+	return false
 }
 
 func c13UsesTalkers(sc *c13Scn) bool {
